@@ -21,7 +21,7 @@ ID = "C02"
 READY = True
 LEAN_TARGETS = ["NauyacaVerif.Props.C02"]
 THEOREMS = [f"NauyacaVerif.C02.{t}" for t in (
-    "static_contained", "static_contained_url", "static_no_leak", "static_reads", "static_complete_os", "static_complete",
+    "static_contained", "static_contained_url", "static_no_leak", "static_reads", "static_complete_os", "static_complete", "static_complete_tree",
     "pctDecode_pctEncode", "utf8Dec_utf8Enc", "canon_segments_clean", "index_rechecked", "metas_tie", "single_read_tie")]
 EXTRACT = ["defaultMaxFileSize"]
 ASSUMPTIONS = [
@@ -37,8 +37,10 @@ LEVEL_TEXT = (
     "the extracted fixed strings or an extracted prefix followed by the OS error text, and the only file read on such a branch is a "
     "read that itself failed (static_no_leak, static_reads); a regular file whose path resolves to itself is served by its literal "
     "and by every RFC 3986 percent-encoded spelling (static_complete, via pctDecode_pctEncode and utf8Dec_utf8Enc over all bytes / "
-    "scalar values).  Assumed, not proved: the OS contract (resolve idempotent, reading through a path = reading through its "
-    "resolution).  Only differentially tested: the tree port of _joinrealpath/the kernel walk, canonical_path against its Lean "
+    "scalar values; static_complete_tree discharges the OS hypotheses for link-free paths of the executable tree).  Assumed, not "
+    "proved: the OS contract (the value of resolve(strict=True) is fully resolved, reading through a path = reading through its "
+    "resolution) — the correspondence run compares the location the model claims with os.path.realpath of the file whose sentinel "
+    "was delivered, which is how the non-strict resolve() escape (57bd787) was found.  Only differentially tested: the tree port of _joinrealpath/the kernel walk, canonical_path against its Lean "
     "definition, the URL glue (GeminiRequest.from_line, GeminiServerProtocol).")
 LEVEL_NOTE = "theorems over an abstract OS + canonical_path model; symlink semantics of the kernel and the Python glue are tied by correspondence only"
 TECHNIQUE = "Lean 4 proofs over an executable model (abstract OS, code-point model of canonical_path) + differential testing of the real StaticFileHandler on generated symlink trees x path spellings against the compiled model, with a direct sentinel oracle"
@@ -172,7 +174,7 @@ def _plain_inside_files(ents):
 
 class Static(Family):
     name = "static"
-    quick_n = 2400
+    quick_n = 3200
     thorough_n = 60000
 
     def gen(self, rng: random.Random, n: int):
@@ -280,6 +282,8 @@ class Static(Family):
             feat += "C"                      # cyclic link
         if any(e[1].rsplit("/", 1)[-1] in ("index.gmi", "index.gemini") for e in links):
             feat += "I"                      # index file that is a link
+        if any("/../" in e[2] and e[1].rsplit("/", 1)[-1] in e[2].split("/") for e in links):
+            feat += "P"                      # link whose target passes through the link itself
         if any(T.UNDEC in e[1] for e in obs["ents"]):
             feat += "U"                      # undecodable file name
         if links and not feat:
@@ -326,6 +330,8 @@ class CanonFam(Family):
     def oracle(self, case, obs):
         # what every user of canonical_path relies on: absolute, no empty / dot segments, idempotent on its own output
         # unless that output contains a percent sign
+        if obs.startswith("<no canonical_path"):
+            return None      # the function does not exist in this tree (a disagreement, not a failing input)
         segs = obs.split("/")[1:]
         if not obs.startswith("/") or any(s in (".", "..") for s in segs) or any(s == "" for s in segs[:-1]):
             return ("canonical-form", f"canonical_path({case['p']!r}) = {obs!r} is not canonical")
